@@ -138,7 +138,14 @@ Definition check_and_put (c : cache) (r : Z * rv) : cache * list Z :=
    can outlive a load (a member elected again, a follower following a new leader), so it may hold a newer version of the
    very region that is read — its save failed or lost against a concurrent one. A record rejected as stale while the
    cache holds a region of the same id shares its key with the live region: it is rewritten from the cache, not deleted. *)
+(* The load visits the records in id order. A cached region pushed out by the record whose id lies AHEAD of the record has
+   not been compared with its own record yet (the cache may lag behind the storage: a member elected again after another
+   leader's term): it is not reported for deletion, its record is judged when the load reaches it. *)
 Definition put_loaded (c : cache) (r : Z * rv) : cache * list Z :=
+  if accepts c r then (fst (check_and_put c r), filter (fun id => id <=? fst r) (snd (check_and_put c r)))
+  else match find_id c (fst r) with Some _ => (c, []) | None => (c, [fst r]) end.
+(* the callback before that fix (dc3cb19): everything pushed out is deleted by id *)
+Definition put_loaded_eager (c : cache) (r : Z * rv) : cache * list Z :=
   if accepts c r then check_and_put c r
   else match find_id c (fst r) with Some _ => (c, []) | None => (c, [fst r]) end.
 Definition rw_loaded (c : cache) (r : Z * rv) : option rv :=
